@@ -600,3 +600,13 @@ package sizes
 
 //@ property C08: (*Path).BestPath (*Path).Path (*Path).TreePrefix (*Path).String setPath (*HistorySize).recordBlob (*HistorySize).recordTree (*HistorySize).recordCommit (*HistorySize).recordTag (*item).Footnote
 //@ property C19: (*Path).MarshalJSON (*item).MarshalJSON
+
+// Rendering entry points: given contracts so that callers are checked against
+// them instead of inlining the whole renderer (their parts are under contract
+// individually: contents' items via Emit/levelOfConcern/formatRow/footnotes).
+//@ assumed func (*HistorySize).TableString
+//@   trust A-CALLEE-UNVERIFIED
+//@   pure
+//@ assumed func (*HistorySize).JSON
+//@   trust A-CALLEE-UNVERIFIED
+//@   pure
